@@ -83,6 +83,9 @@ func genC13(t *rapid.T) CaseC13 {
 		for i := 0; i < k; i++ {
 			n := ls[rapid.IntRange(0, len(ls)-1).Draw(t, "faultNode")]
 			n.Fault = []string{"err", "err", "panic", "panic", "streamerr", "streampanic", "cancelerr"}[rapid.IntRange(0, 6).Draw(t, "faultKind")]
+			if rapid.IntRange(0, 3).Draw(t, "faultEOF") == 0 {
+				n.FaultEOF = true
+			}
 		}
 	}
 	return c
@@ -115,6 +118,9 @@ func checkC13(c CaseC13) (*vkit.Failure, vkit.Meta) {
 			if n.Fault != "" {
 				faultKinds[tag] = true
 				m.Labels = append(m.Labels, "fault:"+n.Fault)
+				if n.FaultEOF {
+					m.Labels = append(m.Labels, "failure-wraps-io.EOF")
+				}
 			}
 			nameable[tag] = nm
 			depthOf[tag] = strings.Count(tag, "/")
